@@ -629,10 +629,26 @@ def r146(prog, chk):
                      lambda env: not both(env), goal_atoms=atoms)
         chk.ob("R14.6", f"{init.short}|{A.keytext(init.node, s)}", ok, where(init, s), detail="predicate installed only when not both were given",
                message="a predicate is installed although include and exclude were both given")
-    chk.minimum("R14.6", 4)
+    # the selection stored in the lib reaches the filter as it is: an empty include list selects nothing, it is not "no list"
+    lf = prog.ix.get_func("ufo2ft.filters:loadFilters")
+    ctor = [c for c in A.body_nodes(lf.node) if isinstance(c, ast.Call) and any(k.arg in ("include", "exclude") for k in c.keywords) or (isinstance(c, ast.Call) and getattr(c, "_kwmoved", None) and
+                                                                                                                                 {"include", "exclude"} & set(c._kwmoved))]
+    need(len(ctor) == 1, f"cannot interpret {lf.short}: filter construction")
+    for opt in ("include", "exclude"):
+        v = A.kwarg(ctor[0], opt)
+        ok = isinstance(v, ast.Call) and A.callee_name(v) == "get" and len(v.args) == 1 and A.is_const(v.args[0], opt)
+        if isinstance(v, ast.Name):
+            okn, _ = every_origin(prog, lf, v, lambda e, f_, _o=opt: isinstance(e, ast.Call) and A.callee_name(e) == "get" and len(e.args) == 1 and A.is_const(e.args[0], _o), allow_const=False)
+            ok = okn
+        chk.ob("R14.6", f"{lf.short}|{opt} is forwarded exactly as stored in the lib", ok, where(lf, ctor[0]), detail=T(v, 60) if v is not None else "missing",
+               message=f"{lf.short}: the '{opt}' selection of a lib-declared filter is not forwarded as stored (`{T(v, 50) if v is not None else None}`): an empty list "
+                       f"(select nothing) and a missing key (no selection) are no longer told apart, so the filter runs on glyphs it was not asked to touch")
+    chk.minimum("R14.6", 6)
 
 
 MUTANTS = [
+    M("empty include list from the lib treated as 'not set' (seeded C14g)", "ufo2ft/filters/__init__.py", "loadFilters",
+      "filterDict.get('include')", "filterDict.get('include') or None", rule="R14.6"),
     M("component-location memo moved to an lru_cache on the filter method (seeded C14f)", "ufo2ft/filters/base.py", "BaseIFilter.glyphSourceLocations",
       "<decorate>", "functools.lru_cache(maxsize=None)", rule="R14.2"),
     M("flatten verdict assigned per component (seeded C14b)", "ufo2ft/filters/flattenComponents.py", "_flattenGlyphComponents",
